@@ -17,6 +17,11 @@ extern "C" int LLVMFuzzerTestOneInput(const uint8_t* data, size_t size)
 		String s(k ? padded.c_str() : body.c_str(), (int)(k ? padded.size() : body.size()));
 		Url u(s);
 		if ((int)strlen(*u.host) != u.host.length() || (int)strlen(*u.path) != u.path.length() || (int)strlen(*u.protocol) != u.protocol.length()) ORACLE("url-field-length");
+		String uq = u.query();
+		if ((int)strlen(*uq) != uq.length() || uq.length() > s.length()) ORACLE("url-query-length");
+		Dic<> up = u.params();
+		volatile int nup = up.length();
+		(void)nup;
 		String d = Url::decode(s);
 		if (d.length() > s.length()) ORACLE("url-decode-longer");
 		Dic<> q = Url::parseQuery(s);
